@@ -93,6 +93,10 @@ pub struct Ins {
     pub ops: Vec<POp>,
     pub term: Option<Tm>,
     pub len: u64,
+    /// make labels of the terminator point to addresses where the extractor found no block/function:
+    /// bit 0 = jump/call target (or an extra computed-jump hint), bit 1 = return / fall-through label,
+    /// bit 2 = use an address in the middle of an instruction instead of one behind the code
+    pub dangle: u8,
 }
 
 #[derive(Clone, Debug, Default)]
@@ -341,6 +345,7 @@ fn emit_block(p: &ProgG, l: &Layout, f: usize, b: usize) -> Value {
             idx += 1;
         }
         let fall = a + ins.len;
+        let first_jmp = jmps.len();
         if let Some(t) = &ins.term {
             let ret_label = |no_ret: bool| -> Option<Value> {
                 if no_ret {
@@ -412,6 +417,38 @@ fn emit_block(p: &ProgG, l: &Layout, f: usize, b: usize) -> Value {
                         };
                         jmps.push(json!({"tid": itid(ja, jidx), "term": {"mnemonic": "BRANCH",
                             "goto": {"Direct": tid("blk", na)}}}));
+                    }
+                }
+            }
+        }
+        if ins.dangle != 0 {
+            // an address without block/function: behind the code, or in the middle of this instruction
+            let da = if ins.dangle & 4 != 0 && ins.len > 1 { a + 1 } else { l.text_addr + l.text_len + 0x200 + (a & 0xf8) };
+            let n = jmps.len();
+            for (k, j) in jmps[first_jmp..n].iter_mut().enumerate() {
+                let mn = j["term"]["mnemonic"].as_str().unwrap_or("").to_string();
+                let t = &mut j["term"];
+                if ins.dangle & 1 != 0 {
+                    match mn.as_str() {
+                        "BRANCH" | "CBRANCH" if k == 0 => t["goto"] = json!({"Direct": tid("blk", da)}),
+                        "CALL" => t["call"]["target"] = json!({"Direct": tid("sub", da)}),
+                        "BRANCHIND" => {
+                            if let Some(h) = t["target_hints"].as_array_mut() {
+                                h.push(json!(a8(da)));
+                            }
+                        }
+                        _ => {}
+                    }
+                }
+                if ins.dangle & 2 != 0 {
+                    match mn.as_str() {
+                        "BRANCH" if k == 1 => t["goto"] = json!({"Direct": tid("blk", da + 8)}),
+                        "CALL" | "CALLIND" | "CALLOTHER" => {
+                            if t["call"].get("return").is_some() {
+                                t["call"]["return"] = json!({"Direct": tid("blk", da + 8)});
+                            }
+                        }
+                        _ => {}
                     }
                 }
             }
@@ -705,7 +742,7 @@ impl<'a> Gen<'a> {
             "sprintf" | "sscanf" => (2, true, false, true),
             "snprintf" => (3, true, false, true),
             "malloc" | "free" | "strlen" | "system" | "chroot" | "chdir" | "umask" | "srand" | "time" | "setuid"
-            | "puts" | "atoi" | "getenv" | "xmalloc" | "strdup" | "__kmalloc" | "kfree" | "add_mtd_device" => (1, true, false, false),
+            | "puts" | "atoi" | "getenv" | "xmalloc" | "strdup" | "__kmalloc" | "kfree" | "add_mtd_device" | "tmpfile" => (1, true, false, false),
             "rand" | "getchar" => (0, true, false, false),
             "strcpy" | "strcat" | "access" | "open" | "realloc" | "calloc" | "fopen" | "fgets" | "strcmp" => (2, true, false, false),
             "memcpy" | "strncmp" | "strncpy" | "memset" | "ioctl" | "read" | "write" | "memcmp" | "recv" => (3, true, false, false),
@@ -739,7 +776,7 @@ impl<'a> Gen<'a> {
     // ---- instruction templates (P-Code as Ghidra's x86-64 SLEIGH produces it, simplified)
 
     pub fn i(&mut self, ops: Vec<POp>) -> Ins {
-        Ins { ops, term: None, len: self.len() }
+        Ins { ops, term: None, len: self.len(), dangle: 0 }
     }
     pub fn mov_rr(&mut self, d: &'static str, s: &'static str) -> Ins {
         self.i(vec![op(r8(d), "COPY", vec![r8(s)])])
@@ -871,25 +908,26 @@ impl<'a> Gen<'a> {
     pub fn call_ext(&mut self, name: &'static str) -> Ins {
         let e = self.ext(name);
         let ops = self.call_ops();
-        Ins { ops, term: Some(Tm::CallExt(e)), len: 5 }
+        Ins { ops, term: Some(Tm::CallExt(e)), len: 5, dangle: 0 }
     }
     pub fn call_sub(&mut self, f: usize) -> Ins {
         let ops = self.call_ops();
-        Ins { ops, term: Some(Tm::CallSub(f)), len: 5 }
+        Ins { ops, term: Some(Tm::CallSub(f)), len: 5, dangle: 0 }
     }
     pub fn call_ind(&mut self, v: V) -> Ins {
         let ops = self.call_ops();
-        Ins { ops, term: Some(Tm::CallInd(v)), len: 2 }
+        Ins { ops, term: Some(Tm::CallInd(v)), len: 2, dangle: 0 }
     }
     pub fn ret(&mut self) -> Ins {
         Ins {
             ops: vec![op(r8("RIP"), "LOAD", vec![space(), r8("RSP")]), op(r8("RSP"), "INT_ADD", vec![r8("RSP"), c8(8)])],
             term: Some(Tm::Ret),
             len: 1,
+            dangle: 0,
         }
     }
     pub fn term(&mut self, t: Tm) -> Ins {
-        Ins { ops: vec![], term: Some(t), len: 2 }
+        Ins { ops: vec![], term: Some(t), len: 2, dangle: 0 }
     }
 
     /// A random "ordinary" instruction over general purpose registers and the stack frame.
@@ -1246,6 +1284,158 @@ impl<'a> Gen<'a> {
             _ => {}
         }
         v
+    }
+}
+
+pub const DANGLING_KINDS: [&str; 9] = [
+    "branch", "cbranch_target", "cbranch_fall", "call_target", "call_return", "callext_return", "callind_return",
+    "callother_return", "hints",
+];
+pub const DIVERGE_CHECKS: [&str; 9] = ["CWE367", "CWE476", "CWE416", "CWE119", "CWE252", "CWE337", "CWE78", "CWE190", "CWE243"];
+
+impl<'a> Gen<'a> {
+    /// (source part, sink part) of a check trigger; the sink part is instantiated once per path
+    fn diverge_src(&mut self, check: &str) -> Vec<Ins> {
+        let mut v = Vec::new();
+        match check {
+            "CWE367" => {
+                let s = self.rostr("/tmp/file");
+                v.push(self.mov_ri("RDI", s));
+                v.push(self.mov_r32i("RSI", 0));
+                v.push(self.call_ext("access"));
+            }
+            "CWE476" => {
+                v.push(self.mov_r32i("RDI", 0x20));
+                v.push(self.call_ext("malloc"));
+                v.push(self.mov_rr("R12", "RAX"));
+            }
+            "CWE416" => {
+                v.push(self.mov_r32i("RDI", 0x10));
+                v.push(self.call_ext("malloc"));
+                v.push(self.mov_rr("R12", "RAX"));
+                v.push(self.mov_rr("RDI", "RAX"));
+                v.push(self.call_ext("free"));
+            }
+            "CWE119" => {
+                v.push(self.mov_r32i("RDI", 8));
+                v.push(self.call_ext("malloc"));
+                v.push(self.mov_rr("R12", "RAX"));
+            }
+            "CWE252" => {
+                let s = self.rostr("42");
+                v.push(self.mov_ri("RDI", s));
+                v.push(self.call_ext("atoi"));
+            }
+            "CWE337" => {
+                v.push(self.mov_r32i("RDI", 0));
+                v.push(self.call_ext("time"));
+                v.push(self.mov_rr("R12", "RAX"));
+            }
+            "CWE78" => {
+                v.push(self.lea("RDI", "RBP", -0x60));
+                let s = self.rostr("cat %s");
+                v.push(self.mov_ri("RSI", s));
+                v.push(self.load("RDX", 8, "RBP", -0x18));
+                v.push(self.mov_r32i("RAX", 0));
+                v.push(self.call_ext("sprintf"));
+            }
+            "CWE190" => {
+                v.push(self.load("RAX", 8, "RBP", -0x18));
+                v.push(self.i(vec![op(r8("R12"), "INT_MULT", vec![r8("RAX"), c8(4)])]));
+            }
+            _ => {
+                // CWE243: chroot, then chdir on one path only / on both
+                let s = self.rostr("/tmp/jail");
+                v.push(self.mov_ri("RDI", s));
+                v.push(self.call_ext("chroot"));
+            }
+        }
+        v
+    }
+    fn diverge_sink(&mut self, check: &str, which: usize) -> Vec<Ins> {
+        let mut v = Vec::new();
+        match check {
+            "CWE367" => {
+                let s = self.rostr("/tmp/file");
+                v.push(self.mov_ri("RDI", s));
+                v.push(self.mov_r32i("RSI", 2 + which as u64));
+                v.push(self.call_ext("open"));
+            }
+            "CWE476" => v.push(self.store("R12", 8 * which as i64, V::Const(0x41, 8))),
+            "CWE416" => v.push(self.load("RAX", 8, "R12", 8 * which as i64)),
+            "CWE119" => v.push(self.store("R12", 0x20 + 8 * which as i64, V::Const(1, 8))),
+            "CWE252" => v.push(self.mov_r32i("RAX", which as u64)),
+            "CWE337" => {
+                v.push(self.mov_r32r32("RDI", "R12"));
+                v.push(self.call_ext("srand"));
+            }
+            "CWE78" => {
+                v.push(self.lea("RDI", "RBP", -0x60));
+                v.push(self.call_ext("system"));
+            }
+            "CWE190" => {
+                v.push(self.mov_rr("RDI", "R12"));
+                v.push(self.call_ext(if which == 0 { "malloc" } else { "xmalloc" }));
+            }
+            _ => {
+                if which == 0 {
+                    let s = self.rostr("/");
+                    v.push(self.mov_ri("RDI", s));
+                    v.push(self.call_ext("chdir"));
+                } else {
+                    v.push(self.mov_r32i("RAX", 0));
+                }
+            }
+        }
+        v
+    }
+    /// `src; if (unrelated flag) { sink0 } else { sink1 }; (sometimes a third sink after the join); return`
+    pub fn diverge_fn(&mut self, check: &str, fname: &str) -> FuncG {
+        let mut seg0 = self.prologue(0x70);
+        seg0.push(self.store("RBP", -0x18, V::Reg("RDI", 8)));
+        seg0.push(self.mov_rr("RBX", "RSI"));
+        seg0.extend(self.diverge_src(check));
+        seg0.push(self.test(reg("RBX", 4), reg("RBX", 4)));
+        let sink_a = self.diverge_sink(check, 0);
+        let sink_b = self.diverge_sink(check, 1);
+        let third = self.rng.chance(1, 3);
+        let mut seg_j = if third { self.diverge_sink(check, 2) } else { vec![] };
+        seg_j.push(self.mov_r32i("RAX", 0));
+        let mut ep = self.epilogue(0x70);
+        let last = ep.pop().unwrap();
+        seg_j.extend(ep);
+        // placeholder targets are patched below
+        let t0 = self.term(Tm::Jcc(V::Reg("ZF", 1), 0));
+        let ta = self.term(Tm::Jmp(0));
+        let mut tb = self.term(Tm::Fall);
+        tb.len = 0;
+        let b0 = to_blocks(seg0, t0);
+        let ba = to_blocks(sink_a, ta);
+        // a path that ends with a call simply returns into the join block
+        let bb = if sink_b.last().map(|i| i.term.is_some()).unwrap_or(false) {
+            let mut sb = sink_b;
+            let l = sb.pop().unwrap();
+            to_blocks(sb, l)
+        } else {
+            to_blocks(sink_b, tb)
+        };
+        let bj = to_blocks(seg_j, last);
+        let start_a = b0.len();
+        let start_b = start_a + ba.len();
+        let start_j = start_b + bb.len();
+        let mut blocks: Vec<BlockG> = Vec::new();
+        blocks.extend(b0);
+        blocks.extend(ba);
+        blocks.extend(bb);
+        blocks.extend(bj);
+        let _ = start_a;
+        if let Some(Tm::Jcc(_, t)) = blocks[start_a - 1].ins.last_mut().and_then(|i| i.term.as_mut()) {
+            *t = start_b;
+        }
+        if let Some(Tm::Jmp(t)) = blocks[start_b - 1].ins.last_mut().and_then(|i| i.term.as_mut()) {
+            *t = start_j;
+        }
+        FuncG { name: fname.to_string(), blocks, shared: vec![], cconv: Some("__stdcall"), no_blocks: false }
     }
 }
 
@@ -1691,6 +1881,12 @@ pub fn gen_random_function(g: &mut Gen, idx: usize, nfuncs: usize, lkm: bool) ->
                 ins.push(nop);
             }
         }
+        if g.rng.chance(1, 6) {
+            // non-existing labels for whatever the terminator carries (target, return, hints)
+            if let Some(last_ins) = ins.iter_mut().rev().find(|i| i.term.is_some()) {
+                last_ins.dangle = 1 + g.rng.below(7) as u8;
+            }
+        }
         blocks.push(BlockG { ins, suffix: None });
     }
     // an instruction with an intra-instruction conditional jump (CMOVcc): the extractor splits the block
@@ -1899,6 +2095,38 @@ impl Recipe {
         let cfg_lkm = kind == Kind::Lkm && rng.chance(1, 2);
         Recipe { g: "gadget".into(), state: rng.next() | 1, kind, gadgets, split: rng.chance(1, 3), extra: rng.below(3) as usize, cfg_lkm, shared: false }
     }
+    pub fn special(name: &str, kind: Kind, state: u64) -> Recipe {
+        Recipe { g: "special".into(), state: state | 1, kind, gadgets: vec![name.to_string()], split: false, extra: 0, cfg_lkm: false, shared: false }
+    }
+    /// directed programs that are part of every run: one per jump kind with a non-existing label
+    pub fn always_dangling() -> Vec<Recipe> {
+        let mut v = Vec::new();
+        for (i, k) in DANGLING_KINDS.iter().enumerate() {
+            let kind = [Kind::Pie, Kind::Exec, Kind::Lkm][i % 3];
+            v.push(Recipe::special(&format!("dangling:{}", k), kind, 1000 + i as u64));
+            v.push(Recipe::special(&format!("dangling:{}@mid", k), kind, 2000 + i as u64));
+        }
+        v
+    }
+    /// … and one per check that picks one of several candidates, with two candidates on diverging paths
+    pub fn always_diverge() -> Vec<Recipe> {
+        let mut v = Vec::new();
+        for (i, c) in DIVERGE_CHECKS.iter().enumerate() {
+            v.push(Recipe::special(&format!("diverge:{}", c), [Kind::Pie, Kind::Exec][i % 2], 3000 + i as u64));
+            v.push(Recipe::special(&format!("diverge2:{}", c), Kind::Pie, 4000 + i as u64));
+        }
+        v
+    }
+    pub fn random_deep_chain(rng: &mut Rng) -> Recipe {
+        let kind = Recipe::random_kind(rng);
+        Recipe::special("deep_chain", kind, rng.next())
+    }
+    pub fn random_diverge(rng: &mut Rng) -> Recipe {
+        let c = *rng.pick(&DIVERGE_CHECKS);
+        let name = if rng.chance(1, 2) { format!("diverge:{}", c) } else { format!("diverge2:{}", c) };
+        let kind = Recipe::random_kind(rng);
+        Recipe::special(&name, kind, rng.next())
+    }
     /// overlapping function bodies with reporting instructions in the shared blocks
     pub fn random_shared(rng: &mut Rng) -> Recipe {
         let kind = Recipe::random_kind(rng);
@@ -1983,6 +2211,137 @@ pub fn gen_special(rng: &mut Rng, kind: Kind, name: &str) -> Input {
             f_ins.push(g.store("R14", 24, V::Reg("R15", 8)));
             let last = g.ret();
             funcs.push(FuncG { name: "f".into(), blocks: to_blocks(f_ins, last), shared: vec![], cconv: Some("MSABI"), no_blocks: false });
+        }
+        // a long chain `r1 = RAX op c; r2 = r1 op c; …` (deeper than the propagation limit of the optimiser) whose
+        // end is used in a branch condition, load/store addresses and indirect jump/call/return targets
+        "deep_chain" => {
+            const R: [&str; 12] = ["RBX", "RCX", "RDX", "RSI", "R8", "R9", "R10", "R11", "R13", "R14", "R15", "RDI"];
+            let mut b = g.prologue(0x30);
+            b.push(g.mov_r32i("RDI", 0x40));
+            b.push(g.call_ext("malloc"));
+            let n = 9 + g.rng.below(4) as usize;
+            let mut prev: &'static str = "RAX";
+            let mut shift: i64 = 0;
+            let linear = g.rng.chance(1, 2);
+            for k in 0..n {
+                let d = R[k];
+                let c = 1 + g.rng.below(6);
+                let mn = if linear {
+                    if k % 2 == 0 { "INT_ADD" } else { "INT_SUB" }
+                } else {
+                    *g.rng.pick(&["INT_ADD", "INT_SUB", "INT_XOR", "INT_ADD", "INT_OR"])
+                };
+                // alternate the shape so that trivial folding does not shorten the chain
+                let i = if k % 3 == 2 {
+                    g.i(vec![op(r8(d), "INT_2COMP", vec![r8(prev)]), op(r8(d), "INT_2COMP", vec![r8(d)]), op(r8(d), mn, vec![r8(d), c8(c)])])
+                } else {
+                    g.i(vec![op(r8(d), mn, vec![r8(prev), c8(c)])])
+                };
+                if mn == "INT_ADD" { shift += c as i64 } else if mn == "INT_SUB" { shift -= c as i64 }
+                b.push(i);
+                prev = d;
+            }
+            // condition: `prev == shift`  (for a purely additive chain this is `RAX == 0`)
+            b.push(g.cmp(r8(prev), c8(shift as u64)));
+            match g.rng.below(3) {
+                0 => b.push(g.load("R12", 8, prev, 0)),
+                1 => b.push(g.store(prev, 8, V::Const(5, 8))),
+                _ => {}
+            }
+            b.push(g.term(Tm::Jcc(V::Reg("ZF", 1), 0)));
+            let mut seg_a = vec![g.store("RAX", 0, V::Const(0x41, 8)), g.load("R12", 8, "RAX", 8)];
+            if g.rng.chance(1, 2) {
+                seg_a.push(g.store(prev, 0, V::Const(1, 8)));
+            }
+            let mut seg_b = vec![g.store("RAX", 16, V::Const(0x42, 8))];
+            if g.rng.chance(1, 2) {
+                seg_b.push(g.load("R12", 8, prev, 16));
+            }
+            let mut seg_j = vec![g.mov_r32i("RAX", 0)];
+            let mut ep = g.epilogue(0x30);
+            let last = ep.pop().unwrap();
+            seg_j.extend(ep);
+            let tail_b = b.pop().unwrap();
+            let b0 = to_blocks(b, tail_b);
+            let ta = g.term(Tm::Jmp(0));
+            let ba = to_blocks(seg_a, ta);
+            let mut tb = g.term(Tm::Fall);
+            tb.len = 0;
+            let bb = to_blocks(seg_b, tb);
+            let bj = to_blocks(seg_j, last);
+            let (sa, sb) = (b0.len(), b0.len() + ba.len());
+            let sj = sb + bb.len();
+            let mut blocks: Vec<BlockG> = Vec::new();
+            blocks.extend(b0);
+            blocks.extend(ba);
+            blocks.extend(bb);
+            blocks.extend(bj);
+            if let Some(Tm::Jcc(_, t)) = blocks[sa - 1].ins.last_mut().and_then(|i| i.term.as_mut()) {
+                *t = sb;
+            }
+            if let Some(Tm::Jmp(t)) = blocks[sb - 1].ins.last_mut().and_then(|i| i.term.as_mut()) {
+                *t = sj;
+            }
+            funcs.push(FuncG { name: "main".into(), blocks, shared: vec![], cconv: Some("__stdcall"), no_blocks: false });
+        }
+        // one jump kind with a label that points to an address without block / function
+        n if n.starts_with("dangling:") => {
+            let spec = &n["dangling:".len()..];
+            let (kind, mid) = match spec.strip_suffix("@mid") {
+                Some(k) => (k, 4u8),
+                None => (spec, 0u8),
+            };
+            let mut b0 = g.prologue(0x20);
+            b0.push(g.mov_r32i("RAX", 7));
+            let mut t: Ins = match kind {
+                "branch" => { let mut t = g.term(Tm::Jmp(1)); t.dangle = 1; t }
+                "cbranch_target" | "cbranch_fall" => {
+                    b0.push(g.cmp(V::Reg("RDI", 8), V::Const(3, 8)));
+                    let mut t = g.term(Tm::Jcc(V::Reg("ZF", 1), 1));
+                    t.dangle = if kind == "cbranch_target" { 1 } else { 2 };
+                    t
+                }
+                "call_target" => { let mut t = g.call_sub(1); t.dangle = 1; t }
+                "call_return" => { let mut t = g.call_sub(1); t.dangle = 2; t }
+                "callext_return" => { let mut t = g.call_ext("strlen"); t.dangle = 2; t }
+                "callind_return" => { let mut t = g.call_ind(V::Reg("RAX", 8)); t.dangle = 2; t }
+                "callother_return" => { let mut t = g.term(Tm::CallOther("syscall")); t.dangle = 2; t }
+                _ => { let mut t = g.term(Tm::JmpInd(V::Reg("RAX", 8), vec![1])); t.dangle = 1; t }
+            };
+            t.dangle |= mid;
+            if t.len < 2 {
+                t.len = 2;
+            }
+            b0.push(t);
+            let mut b1 = vec![g.mov_r32i("RAX", 0)];
+            b1.extend(g.epilogue(0x20));
+            funcs.push(FuncG { name: "main".into(), blocks: vec![BlockG { ins: b0, suffix: None }, BlockG { ins: b1, suffix: None }],
+                shared: vec![], cconv: Some("__stdcall"), no_blocks: false });
+            let h = vec![g.mov_r32i("RAX", 1), g.ret()];
+            funcs.push(FuncG { name: "helper".into(), blocks: vec![BlockG { ins: h, suffix: None }], shared: vec![], cconv: Some("__stdcall"), no_blocks: false });
+        }
+        // a check that reports ONE of several candidates gets two equally eligible candidates on diverging
+        // paths ("diverge:<check>": in main; "diverge2:<check>": in two helper functions as well)
+        n if n.starts_with("diverge:") || n.starts_with("diverge2:") => {
+            let two = n.starts_with("diverge2:");
+            let check = n.split(':').nth(1).unwrap_or("CWE367").to_string();
+            if two {
+                let mut main_ins = g.prologue(0x20);
+                main_ins.push(g.call_sub(1));
+                main_ins.push(g.call_sub(2));
+                main_ins.push(g.mov_r32i("RAX", 0));
+                let mut ep = g.epilogue(0x20);
+                let last = ep.pop().unwrap();
+                main_ins.extend(ep);
+                funcs.push(FuncG { name: "main".into(), blocks: to_blocks(main_ins, last), shared: vec![], cconv: Some("__stdcall"), no_blocks: false });
+                let f1 = g.diverge_fn(&check, "worker_a");
+                funcs.push(f1);
+                let f2 = g.diverge_fn(&check, "worker_b");
+                funcs.push(f2);
+            } else {
+                let f = g.diverge_fn(&check, "main");
+                funcs.push(f);
+            }
         }
         // several functions jump into a chain of blocks of one function and list these blocks as their own
         // (overlapping function bodies); the shared blocks contain accesses that make checks report at
